@@ -138,3 +138,8 @@ def run(ctx):
     other = [c for c in esc if not c.is_(r"ArgMatcher::start_trailing$")]
     res.check(not other, "R8.4", "escape-only-switches-mode", esc[0].where() if esc else pp.where(), "on `--` only start_trailing is called",
               "on the `--` token parse also calls %s: the explicit escape changes how values before/after it are grouped" % [c.callee_q.rsplit("::", 1)[1] for c in other])
+
+    # ---- R8.5 prefix inference is a tree-wide setting (shared with C05 R5.8)
+    from rules.c05 import global_setters
+    global_setters(fx, res, "R8.5", ["infer_long_args", "infer_subcommands"])
+    # ---- R8.6 (shared with C06 R6.8) detached and attached spellings both survive a later error under ignore_errors: pending values are flushed before every in-loop error
